@@ -46,6 +46,18 @@ IsAci(E, v) == IF v.aci = 2 THEN E.aci ELSE v.aci = 1
 HasBrace(s) == \E i \in 1..Len(s) : s[i] = 123 \/ s[i] = 125
 
 \* documented domain of the naming attributes
+\* ("longest" is measured in bytes by the code; definitions where the longest literal by bytes is not
+\* also the unique longest by characters are kept out of the domain, the property does not say which)
+MaxLen(xs) == CHOOSE m \in {Len(xs[k]) : k \in 1..Len(xs)} : \A k \in 1..Len(xs) : Len(xs[k]) <= m
+UniqueLongestChars(xs) == Cardinality({k \in 1..Len(xs) : Len(xs[k]) = MaxLen(xs)}) = 1
 NamesWF(E) == \A i \in Idx(E) : LET v == E.variants[i] IN
-                 (~IsSome(v.ts) /\ v.ser # <<>>) => UniqueLongest(v.ser)
+                 (~IsSome(v.ts) /\ v.ser # <<>>) =>
+                    /\ UniqueLongest(v.ser) /\ UniqueLongestChars(v.ser)
+                    /\ Len(v.ser[Longest(v.ser)]) = MaxLen(v.ser)
+\* documented: const_into_str is not supported in combination with transparent
+IntoStrWF(E) == ~(E.cis /\ \E i \in Idx(E) : E.variants[i].transp)
+\* names containing braces are format strings (C17), not fixed names
+BraceFree(E) == \A i \in Idx(E) : LET v == E.variants[i] IN
+                   /\ \A k \in 1..Len(v.ser) : ~HasBrace(v.ser[k])
+                   /\ IsSome(v.ts) => ~HasBrace(The(v.ts))
 =============================================================================
